@@ -9,6 +9,7 @@ import (
 	"fmt"
 	"io"
 	"os"
+	"time"
 
 	"github.com/a-h/templ"
 )
@@ -27,6 +28,10 @@ type Job struct {
 	BufSize  int    `json:"buf_size"`  // runtime.DefaultBufferSize for this process (first job decides)
 	FlushErr bool   `json:"flush_err"` // the writer has a Flush() error method that fails
 	Bufio    bool   `json:"bufio"`     // render into the caller's own long-lived *bufio.Writer (8 KB), flushed by the caller afterwards
+	// not a render: write a file (a development-mode text file changing under a running program)
+	WriteFile string `json:"write_file"`
+	Content   string `json:"content"`
+	ModUnix   int64  `json:"mod_unix"`
 }
 
 // the caller's own buffered writer, kept for the life of the process (as a server would keep one per connection)
@@ -97,6 +102,17 @@ func (w *faultWriter) Write(p []byte) (int, error) {
 // RenderJob renders one job against the registry.
 func RenderJob(reg map[string]func(*A) templ.Component, j Job) (res Result) {
 	res = Result{T: j.T, V: j.V}
+	if j.WriteFile != "" {
+		if err := os.WriteFile(j.WriteFile, []byte(j.Content), 0o644); err != nil {
+			res.Err = err.Error()
+			return
+		}
+		mt := time.Unix(j.ModUnix, 0)
+		if err := os.Chtimes(j.WriteFile, mt, mt); err != nil {
+			res.Err = err.Error()
+		}
+		return
+	}
 	f, ok := reg[j.T]
 	if !ok {
 		res.Err = "unknown template"
